@@ -123,3 +123,12 @@ def default_construction_c09(chk, ctx, ci):
            'no raise reachable with default arguments' if not problems
            else 'may raise: %r' % (problems,),
            site='%s:%d' % (ci.module.relpath, ci.node.lineno))
+
+
+def on_unbounded_recursion(chk, err):
+    """cli hook: the analysis stopped at a recursive function that is not
+    one of the table decoders."""
+    for r, t in RULES.items():
+        chk.rule(r, t)
+    chk.ob('C09.X', 'recursion through %s' % err.func_short, False,
+           '%s re-enters itself outside the table decoders: RecursionError (not among the caught decode errors) reaches the caller for inputs whose table nesting is 0' % err.func_short, site=err.site)
